@@ -205,6 +205,16 @@ def check_slices(cat, T, cleaned, load_AB, slabs=None, masks=None, raw_cols=True
                 want = [C04.ref_pid(x, T.box, T.ppd)['pid'] for x in pid]
                 if [int(x) for x in sub['pid'][s0:s0 + n0]] != want:
                     return f'halo row {h} subsample {AB}: pid column does not match the halo\'s own records'
+            # every other column unpacked from the pid word (unpack_bits): same records, same rows
+            extra = [c for c in ('lagr_idx', 'lagr_pos', 'tagged', 'density') if c in sub.colnames]
+            if extra and n0:
+                refs = [C04.ref_pid(x, T.box, T.ppd) for x in pid]
+                for c in extra:
+                    got = np.asarray(sub[c][s0:s0 + n0], dtype=np.float64).reshape(n0, -1)
+                    want = np.asarray([np.atleast_1d(r[c]) for r in refs], dtype=np.float64).reshape(n0, -1)
+                    tol = 3e-6 * T.box if c == 'lagr_pos' else (1e-6 * np.maximum(np.abs(want), 1.0) if c == 'density' else 0.0)
+                    if got.shape != want.shape or not np.all(np.abs(got - want) <= tol):
+                        return f'halo row {h} subsample {AB}: column {c} does not match the halo\'s own pid records (got {got.tolist()[:3]}, expected {want.tolist()[:3]})'
             off += n0
     if off != len(sub):
         return f'slice lengths sum to {off}, subsample table has {len(sub)} rows'
